@@ -28,6 +28,22 @@ class BlockBase(BaseException):
     pass
 
 
+class FalsyErr(Exception):
+    """An exception object that is falsy (an empty collection-like error)."""
+
+    def __len__(self):
+        return 0
+
+
+class EqErr(Exception):
+    """An exception class with value equality: every instance equals every other."""
+
+    def __eq__(self, other):
+        return type(other) is type(self)
+
+    __hash__ = Exception.__hash__
+
+
 class OurKeyboardInterrupt(KeyboardInterrupt):
     """KeyboardInterrupt for the purposes of the library (a subclass, so that the harness
     can tell it from a real interrupt of the checker)."""
@@ -37,7 +53,7 @@ class OurKeyboardInterrupt(KeyboardInterrupt):
 
 VALUE = ("value",)
 OTHER = ("other",)
-OUTCOMES = ("normal", "Exception", "BaseException", "StopIteration", "StopAsyncIteration", "RuntimeError", "GeneratorExit", "KeyboardInterrupt", "exactly-Exception", "exactly-BaseException")
+OUTCOMES = ("normal", "Exception", "BaseException", "StopIteration", "StopAsyncIteration", "RuntimeError", "GeneratorExit", "KeyboardInterrupt", "exactly-Exception", "exactly-BaseException", "falsy-Exception", "value-equal-Exception")
 HANDLERS = ("none", "finally", "swallow", "reraise", "raise-new", "raise-new-from-none", "raise-same-type", "return", "yield-again", "raise-StopAsyncIteration", "raise-new-RuntimeError", "raise-new-RuntimeError-from-none", "finally-raising-RuntimeError")
 
 
@@ -125,6 +141,10 @@ def make_exc(outcome):
         return OurKeyboardInterrupt("block")
     if outcome == 8:
         return Exception("block")
+    if outcome == 10:
+        return FalsyErr("block")
+    if outcome == 11:
+        return EqErr("block")
     e = BaseException("block")
     return e
 
@@ -169,7 +189,7 @@ def classify(out, E, made=()):
 
 
 def _pre(pre, handler, cont, outcome):
-    ok = 0 <= pre <= 3 and 0 <= handler <= 12 and 0 <= cont <= 3 and 0 <= outcome <= 9
+    ok = 0 <= pre <= 3 and 0 <= handler <= 12 and 0 <= cont <= 3 and 0 <= outcome <= 11
     if P("outcome") is not None:
         ok = ok and outcome == P("outcome")
     if P("pre") is not None:
@@ -222,12 +242,12 @@ def h_cm(pre: int, handler: int, cont: int, outcome: int):
     return finish(ok, ("body" in ls and outcome != 0) or pre != 2 or outcome == 0, ("cm", pre, HANDLERS[handler], cont, OUTCOMES[outcome], cs[0]) if pre == 2 else ("cm", pre, "generator-never-yields: handler/continuation irrelevant", cs[0]))
 
 
-GRID = {"h_cm": lambda: [(p, h, c, o) for p in range(4) for h in range(13) for c in range(4) for o in range(10) if P("outcome") in (None, o) and P("pre") in (None, p)]}
+GRID = {"h_cm": lambda: [(p, h, c, o) for p in range(4) for h in range(13) for c in range(4) for o in range(12) if P("outcome") in (None, o) and P("pre") in (None, p)]}
 
 
 def jobs(tier):
     J = []
-    for o in range(10):
+    for o in range(12):
         J.append({"module": "c13", "fn": "h_cm", "part": {"outcome": o, "pre": 2}, "timeout": 200 if tier == "quick" else 900, "preflight_budget": 60})
     for p in (0, 1, 3):
         J.append({"module": "c13", "fn": "h_cm", "part": {"pre": p}, "timeout": 200 if tier == "quick" else 900, "preflight_budget": 60})
@@ -235,7 +255,7 @@ def jobs(tier):
 
 
 LEVEL = "other"
-BOUNDS = {"quick": "all 936 generator programs x block outcomes of the property's grammar (4 x 13 x 4 x 10: a RuntimeError raised before the yield and a StopAsyncIteration raised after resumption added; the grammar's eight block outcomes plus exactly-Exception and exactly-BaseException; the grammar's ten handlers plus three that raise a new RuntimeError), each selected by four symbolic ints; also executed natively on the full grid", "thorough": "same (the space is finite and exhausted)"}
+BOUNDS = {"quick": "all 936 generator programs x block outcomes of the property's grammar (4 x 13 x 4 x 12: block exceptions that are falsy or compare equal to a fresh instance added; a RuntimeError raised before the yield and a StopAsyncIteration raised after resumption added; the grammar's eight block outcomes plus exactly-Exception and exactly-BaseException; the grammar's ten handlers plus three that raise a new RuntimeError), each selected by four symbolic ints; also executed natively on the full grid", "thorough": "same (the space is finite and exhausted)"}
 OUTSIDE = ["generators with more than one try block or nested context managers", "__context__/__cause__ chains of the propagated exception", "KeyboardInterrupt is represented by a subclass"]
 NONTRIVIAL_RULE = "the block was entered and ended with an exception on the path"
 
